@@ -744,7 +744,10 @@ def checkProp (prop : String) (c : Case) (t : Transcript) : Option String :=
   match prop with
   | "C01" => checkC01 c t
   | "C02" => checkC02 c t
-  | "C03" | "C05" => checkHold c t
+  -- C03: "whenever any API gives the thread its key back, every lock covered by that guard or call
+  -- has already been released": the key must not be obtainable inside a raw unlock of a session
+  | "C03" => (checkC14 c t).orElse fun _ => checkHold c t
+  | "C05" => checkHold c t
   | "C04" => (checkC04 c t).orElse fun _ => checkHold c t
   | "C06" => checkC06 c t
   | "C07" => checkC07 c t
